@@ -922,7 +922,9 @@ func correlatedCut(a ssa.Instruction, cut *Cut) {
 			continue
 		}
 		for _, h := range held {
-			if h.Cond == iff.Cond {
+			// the branch that established the condition itself is not "another test of it"; a second branch on the
+			// very same value (a condition hoisted into a variable and tested twice) is
+			if h.If == iff || (h.If == nil && h.Cond == iff.Cond) {
 				continue
 			}
 			c1, p1 := stripNot(h.Cond, h.Pol)
@@ -967,6 +969,7 @@ func (c *Cut) Clone() *Cut {
 type HeldCond struct {
 	Cond ssa.Value
 	Pol  bool
+	If   *ssa.If // the branch that established it
 }
 
 // heldCondVals is heldConds with the SSA values.
@@ -1020,7 +1023,7 @@ func heldCondVals1(a ssa.Instruction) []HeldCond {
 		}
 		for si, s := range b.Succs {
 			if len(s.Preds) == 1 && s.Dominates(ab) {
-				out = append(out, HeldCond{iff.Cond, si == 0})
+				out = append(out, HeldCond{iff.Cond, si == 0, iff})
 			}
 		}
 	}
